@@ -646,6 +646,10 @@ func (b *bitstream) ReadTimestamp() (Timestamp, error) {
 	if err != nil {
 		return Timestamp{}, err
 	}
+	if offset <= -1440 || offset >= 1440 {
+		// A local offset is less than a day either way.
+		return Timestamp{}, &SyntaxError{"invalid timestamp - offset out of range", b.pos - olength}
+	}
 	length -= olength
 
 	if length == 0 {
@@ -660,6 +664,10 @@ func (b *bitstream) ReadTimestamp() (Timestamp, error) {
 			return Timestamp{}, err
 		}
 		length -= vlength
+		if val > 10000 {
+			// No field is that large (the UTC year of a local year 9999 may be 10000), and none may wrap into range as an int.
+			return Timestamp{}, &SyntaxError{"invalid timestamp - field out of range", b.pos - vlength}
+		}
 		ts[i] = int(val)
 
 		// When i is 3, it means we are setting the hour component. A timestamp with an hour
